@@ -269,7 +269,7 @@ func TestC20(t *testing.T) {
 	}
 	// ---------- (3) existing targets are never clobbered ----------
 	for _, cmd := range []string{"make-iso", "decrypt-redump", "decrypt-3k3y"} {
-		for _, kind := range []string{"file", "dir", "symlink-to-file", "file:trailing-slash", "file:via-missing-dir", "file:via-symlinked-dir", "file:dot-slash", "file:relative", "file:doubled-slash"} {
+		for _, kind := range []string{"file", "dir", "symlink-to-file", "file:trailing-slash", "file:via-missing-dir", "file:via-symlinked-dir", "file:dot-slash", "file:relative", "file:doubled-slash", "file:rel-trailing-slash", "file:rel-via-missing-dir", "file:rel-via-symlinked-dir", "file:rel-dot-dot"} {
 			idx++
 			if !r.Mine(idx) {
 				continue
@@ -306,6 +306,14 @@ func TestC20(t *testing.T) {
 					spelled = "target/out.iso"
 				case "file:doubled-slash":
 					spelled = tdir + "//out.iso"
+				case "file:rel-trailing-slash": // relative spellings (the tool runs in `base`)
+					spelled = "target/out.iso/"
+				case "file:rel-via-missing-dir":
+					spelled = "target/missing/../out.iso"
+				case "file:rel-via-symlinked-dir":
+					spelled = "target/lnk/../out.iso"
+				case "file:rel-dot-dot":
+					spelled = "src/../target/out.iso"
 				}
 			}
 			switch kind {
